@@ -1,6 +1,8 @@
 package props
 
 import (
+	"strconv"
+
 	"github.com/wkhere/bcl"
 
 	"verifharness/symio"
@@ -200,5 +202,24 @@ func C05_Unmarshal() {
 	verif.Assert(err == nil, "unmarshal succeeds")
 	want := 100 + int(d[0]-'0')*10 + int(d[1]-'0')
 	verif.Assert(got.Count == want && got.Label == string(s) && got.Ratio == 0.5 && got.Enabled && got.Name == "nm", "values reproduced")
+	verif.Reach("checked")
+}
+
+// C05_Escapes: a string value needing escapes, written as BCL text with the
+// Go string syntax and unmarshalled back, for every 3-byte string over an
+// alphabet containing backslash, quote, newline, tab and letters.
+func C05_Escapes() {
+	b := verif.Bytes("s", 3)
+	for _, c := range b {
+		verif.Assume(c == '\\' || c == '"' || c == '\n' || c == '\t' || c == 'a' || c == ' ' || c == '#')
+	}
+	s := string(b)
+	src := "def t1 \"n\" {\n label = " + strconv.Quote(s) + "\n}\nbind t1 -> struct\n"
+	var got T1
+	out, log := &symio.Writer{}, &symio.Writer{}
+	err := bcl.Unmarshal([]byte(src), &got, bcl.OptOutput(out), bcl.OptLogger(log))
+	verif.Observe("err", err)
+	verif.Assert(err == nil, "unmarshal succeeds")
+	verif.Assert(got.Label == s, "string with escapes reproduced")
 	verif.Reach("checked")
 }
